@@ -7,6 +7,7 @@ import (
 	"bytes"
 	"context"
 	"crypto/sha256"
+	"crypto/tls"
 	"encoding/hex"
 	"encoding/json"
 	"fmt"
@@ -194,6 +195,13 @@ func runMountCase(c MountCase, seed int64) []interface{} {
 			w.Header().Set("X-Extra", tag)
 			w.Write([]byte("extra " + tag))
 		})))
+	}
+	// every third server is a TLS one (the mount table does not depend on the transport); the option's place among the
+	// others is drawn
+	if c.ID%3 == 0 {
+		r := newRng(seed, c.ID, 20)
+		k := r.Intn(len(opts) + 1)
+		opts = append(opts[:k:k], append([]larking.ServerOption{larking.TLSCredsOption(&tls.Config{MinVersion: tls.VersionTLS12})}, opts[k:]...)...)
 	}
 	var srv *http.Server
 	func() {
